@@ -85,6 +85,17 @@ def step (st : St) (ws : List String) : St × String :=
       let r := serve st.cfg (isExempt st.pfx pb) c rawLen eb facts
       (st, showROut h r.1)
     | _, _, _, _, _, _ => (st, "bad-op")
+  -- any body-reading route through ServeHTTP: only the statuses the body reader owns are compared
+  -- (413 / 415); everything else (delivered to the route's handler, or a 400) is "other"
+  | ["route", p, cl, n, e, f1, f2, f3, f4, f5] =>
+    match parseHexArg p, cl.toInt?, n.toNat?, parseHexArg e, parseFacts f1 f2 f3 f4 f5 with
+    | some pb, some c, some rawLen, some eb, some facts =>
+      let r := serve st.cfg (isExempt st.pfx pb) c rawLen eb facts
+      (st, match status r.1 with
+        | 413 => "413"
+        | 415 => "415"
+        | _ => "other")
+    | _, _, _, _, _ => (st, "bad-op")
   | ["dec", c, m, sha, f1, f2, f3, f4, f5] =>
     match codecOf c, m.toInt?, kv "sha" sha, parseFacts f1 f2 f3 f4 f5 with
     | some codec, some mx, some h, some facts =>
